@@ -101,12 +101,13 @@ Definition a_step (s : astate) (c : acall) : bool * astate :=
 Definition a_run (s : astate) (cs : list acall) : astate :=
   fold_left (fun s c => snd (a_step s c)) cs s.
 
-(* the calls a client can issue in state s (with-blocks are well bracketed) *)
+(* the calls a client can issue in state s.  with-blocks on one object may be nested: __enter__ inside a context simply
+   opens the file again (the object then holds the new handle), __exit__ closes whatever handle the object holds — so
+   every call is always possible; only the environment's moves are restricted (the file is not swapped under an open
+   handle) *)
 Definition a_enabled (s : astate) (c : acall) : bool :=
   match c with
-  | Enter => negb (x_inside s)
-  | ExitNormal | ExitExn => x_inside s
-  | Clobber | Restore => negb (x_inside s)      (* the file is not swapped under an open handle *)
+  | Clobber | Restore => negb (x_inside s)
   | _ => true
   end.
 
